@@ -1178,9 +1178,6 @@ func (p *BinaryProtocol) ReadBaseTypeWithDesc(desc *proto.TypeDescriptor, hasMes
 			if messageLengthErr != nil {
 				return nil, messageLengthErr
 			}
-			if length == 0 {
-				return nil, nil
-			}
 			messageLength = length
 		}
 
